@@ -365,6 +365,8 @@ func (r *Registry) Observe(v any) (tok int, same bool) {
 		if _, err := fmt.Sscanf(string(x), "act-payload-%d", &t); err == nil {
 			tok = t
 		}
+	case prio:
+		tok = int(x) * 1000 // a small named integer: item number i of a typed slice of them
 	case int:
 		tok = x
 	case string:
@@ -427,11 +429,15 @@ func (r *Registry) Err(tok int) error {
 	}
 	var e error
 	// consecutive tokens share a flavour pairwise: two attempts in a row may fail with errors of the same dynamic type
-	sel := (tok / 2) % 6
+	sel := (tok / 2) % 7
 	if r.MixFlavour {
-		sel = (tok/1000 + (tok%1000)/2) % 6 // every flavour occurs at the first attempts of some item
+		sel = (tok/1000 + (tok%1000)/2) % 7 // every flavour occurs at the first attempts of some item
 	}
 	switch sel {
+	case 6:
+		// an error that says of itself that retrying is pointless (Temporary() == false, Timeout() == false, as
+		// syscall.Errno and *os.PathError do): it is an error like any other to the retry loop and to the fallback
+		e = &permErr{Tok: tok}
 	case 5:
 		// an error type that cannot be compared with == (a slice of messages, as validation libraries return)
 		e = fieldErrs{fmt.Sprintf("field error %d", tok), "second message"}
@@ -456,6 +462,15 @@ func (r *Registry) Err(tok int) error {
 	r.errs[tok] = e
 	return e
 }
+
+type permErr struct{ Tok int }
+
+func (e *permErr) Error() string   { return fmt.Sprintf("permanent error %d", e.Tok) }
+func (e *permErr) Temporary() bool { return false }
+func (e *permErr) Timeout() bool   { return false }
+
+// a named type whose kind is uint8 (an enum of small numbers): a slice of them is a slice of items, not a byte string
+type prio uint8
 
 type fieldErrs []string
 
